@@ -156,6 +156,7 @@ def _dft_alpha(dx, du, wavelength, z, oversample):
     # be rounded to 24 bits before the division)
     dx = np.asarray(dx, dtype=float)
     du = np.asarray(du, dtype=float)
+    wavelength, z, oversample = float(wavelength), float(z), float(oversample)
     return ((dx[0]*du[0])/(wavelength*z*oversample),
             (dx[1]*du[1])/(wavelength*z*oversample))
 
